@@ -42,5 +42,10 @@ PROPS = {
     "C15": prog("hist", ["base", "dbg"], q(5, 3000, 100), t(8, 40000, 120, 120), assumptions=COMMON_ASSUME),
     "C19": custom(pure),
     "C16": prog("hist", ["base", "dbg"], q(6, 2500, 100), t(8, 30000, 160, 120), assumptions=COMMON_ASSUME),
+    "C17": dict(kind="prog", parts=[dict(target="hist", configs=["base", "dbg"]),
+                                   dict(target="fence", configs=["base", "dbg", "dbg16"],
+                                        quick=dict(shards=2, cases=20000, size=24),
+                                        thorough=dict(shards=5, cases=300000, size=24))],
+                quick=q(4, 3000, 100), thorough=t(6, 30000, 160, 120), assumptions=COMMON_ASSUME),
     "C18": prog("hist", HIST3, q(4, 3000, 100), t(5, 40000, 160, 120), assumptions=COMMON_ASSUME),
 }
